@@ -243,6 +243,116 @@ def batch(ver, phase, muts, *, seed, target="lan", level="lan"):
     return {"events": s.trace, "steps": s.steps, "ver": ver, "phase": phase, "target": target, "level": level, "n": n}
 
 
+def delivered(evs):
+    return any(e.get("e") == "deliver" for e in evs)
+
+
+def hangup_runs(ctx: Ctx):
+    """The peer's byte stream ENDS (FIN / reset) in the middle of an exchange or handshake: after nothing, after a cut-off packet, after a complete
+    (valid or malformed) reply, and right after a valid handshake reply of the handshake a send performs on its own."""
+    rng = ctx.rng
+    frame = acdev.ACModel().state_frame()
+    runs = []
+    k = 0
+    for rep in range(ctx.pick(2, 30)):
+        for ver in (2, 3):
+            for target, level in (("lan", "lan"), ("ac", "dev" if ver == 3 else "lan")):
+                k += 1
+                s = sched.Session(version=ver, retries=3, seed=ctx.seed * 29 + k, target=target, ac=acdev.ACModel() if target == "ac" else None)
+                n = 0
+                try:
+                    good = landev.v2_wrap(frame, 5)
+                    streams = [b"", b"", good[:1], good[:5], good[:6], good[:40], good[:-1], rb(rng, 3), b"\x83", b"\x83\x70", b"\x83\x70\x00\x40\x20", None]
+                    for st in streams:
+                        for reset in (False, True):
+                            if ver == 3 and s.lan._protocol_version != 3:
+                                s.call_auth("good", level=level)
+                                s.settle()
+                            if ver == 3 and st is not None and st[:1] == b"\x5a":
+                                cid = len(s.net.conns) - 1
+                                full = landev.v3_enc_packet(s.dev.sess[cid]["key"], good, 7) if cid >= 0 and s.dev.sess.get(cid, {}).get("key") else good
+                                st = full[:len(st)]
+                            r = raw(st) if st is not None else None
+                            if target == "ac":
+                                s.call_op("refresh", reply=r)
+                            else:
+                                s.call_send(reply=r)
+                            s.settle(data=r, hs=None, until=delivered)
+                            if s.task is not None:
+                                s.peerclose(reset=reset)              # the stream ends here; the call is still waiting
+                                s.settle()
+                            n += 1
+                            # V3: the next command re-authenticates by itself; the peer answers that handshake properly and hangs up at once
+                            if ver == 3:
+                                if target == "ac":
+                                    s.call_op("refresh")
+                                else:
+                                    s.call_send()
+                                s.settle(until=lambda evs: any(e.get("e") == "deliver" and e.get("m") == "HSR" for e in evs))
+                                if s.task is not None:
+                                    s.peerclose(reset=reset)
+                                    s.settle()
+                                n += 1
+                            if target == "ac":
+                                s.call_op("refresh")
+                            else:
+                                s.call_send()
+                            s.settle()
+                finally:
+                    s.close()
+                runs.append({"events": s.trace, "steps": s.steps, "ver": ver, "phase": "hangup", "target": target, "level": level, "n": n, "muts": []})
+    return runs
+
+
+def rehandshake_runs(ctx: Ctx):
+    """Re-authentication of a session that already holds a key (explicitly, or by a send after the 12 h expiry) answered with wrong-phase traffic that
+    is perfectly valid under the CURRENT session key: encrypted responses with payloads of every short length, a handshake reply under the session key."""
+    rng = ctx.rng
+    runs = []
+    k = 0
+    lens = list(range(0, 34)) + [47, 48, 63, 64, 65, 72]
+    for rep in range(ctx.pick(1, 12)):
+        for target, level in (("lan", "lan"), ("ac", "dev")):
+            for mode in ("explicit", "expired"):
+                k += 1
+                s = sched.Session(version=3, retries=3, seed=ctx.seed * 31 + k, target=target, ac=acdev.ACModel() if target == "ac" else None)
+                n = 0
+                try:
+                    for ln in (lens if not ctx.quick else rng.sample(lens, 14) + [1, 15, 17, 31]):
+                        if s.lan._protocol is None or not s.lan._alive or not s.lan._protocol.authenticated:
+                            s.call_auth("good", level=level)
+                            s.settle()
+                            if target == "ac":
+                                s.call_op("refresh")
+                            else:
+                                s.call_send()
+                            s.settle()
+                        cid = len(s.net.conns) - 1
+                        sk = s.dev.sess[cid]["key"]
+                        m = landev.v3_enc_packet(sk, rb(rng, ln), 40 + n) if ln != 64 or n % 2 else landev.v3_plain_packet(1, 0, landev.hs_reply_payload(sk, rb(rng, 32)))
+                        r = raw(m)
+                        if mode == "explicit":
+                            s.call_auth("good", reply=r, level=level)
+                            s.settle(hs=r)
+                        else:
+                            s.jumpauth()
+                            if target == "ac":
+                                s.call_op("refresh", reply=r)
+                            else:
+                                s.call_send(reply=r)
+                            s.settle(hs=r)
+                        n += 1
+                        if target == "ac":
+                            s.call_op("refresh")
+                        else:
+                            s.call_send()
+                        s.settle()
+                finally:
+                    s.close()
+                runs.append({"events": s.trace, "steps": s.steps, "ver": 3, "phase": "rehandshake_" + mode, "target": target, "level": level, "n": n, "muts": []})
+    return runs
+
+
 def chunks(xs, n):
     return [xs[i:i + n] for i in range(0, len(xs), n)]
 
@@ -279,7 +389,10 @@ def collect(ctx: Ctx):
                 runs.append(r)
                 for m in ch:
                     ctx.count_distinct((ver, phase, target, m))
-    return runs
+    extra = hangup_runs(ctx) + rehandshake_runs(ctx)
+    for j, r in enumerate(extra):
+        ctx.count_distinct((r["ver"], r["phase"], r["target"], j))
+    return runs + extra
 
 
 def run(ctx: Ctx) -> int:
@@ -327,7 +440,9 @@ def run(ctx: Ctx) -> int:
     return ctx.finish(
         rule="grammar-aware mutations of valid V2 and V3 traffic (header fields at boundary values, all type/pad nibbles, ciphertext lengths 1..15 mod "
              "16, valid tag/signature over wrong padding / random / empty / misaligned ciphertext, truncations, bit flips, other key, random bytes) at "
-             "the phases {handshake wait, read wait, queued before the next exchange} through LAN.send, LAN.authenticate, Device.authenticate, "
+             "the phases {handshake wait, read wait, queued before the next exchange}; the peer's stream ENDING (FIN / reset) after nothing / a cut-off packet / a "
+             "complete reply and right after the valid reply to a handshake a send performs on its own; re-authentication (explicit / after expiry) answered with "
+             "encrypted responses of every short payload length valid under the current session key; through LAN.send, LAN.authenticate, Device.authenticate, "
              "AirConditioner.refresh; distinct = (version, phase, API, peer bytes)",
         assumptions=["F3: for malformed input the outcome may be any of ProtocolError / AuthenticationError / Timeout",
                      "an exception raised inside data_received is handled as asyncio's transports do (connection dropped), so it surfaces as a timeout"])
